@@ -80,6 +80,7 @@ class Gen:
         self.minmax_literal_hazard = False
         self.inf_constant_hazard = False
         self.annotate_stringlist = False
+        self.no_methods = False
 
     # ---- helpers
     def feat(self, f):
@@ -173,6 +174,8 @@ class Gen:
         if r < 0.95:
             self.feat("ptr-ternary")
             return N("tern", PTR, (self.expr(BOOL, depth + 1), self.obj_expr(depth + 1, False), self.obj_expr(depth + 1, False)))
+        if self.no_methods:
+            return N("obj", PTR, v=rng.choice(vfs).id, const=True)
         self.feat("ptr-method")
         return N("call", PTR, (self.obj_expr(depth + 1, False),), v="other")
 
@@ -424,7 +427,7 @@ class Gen:
         return N("cast", t, (e,), v=t)
 
     def p_method(self, t, depth):
-        if self.profile == "constant" or not [o for o in self.env.objects if o.cls == "VfWidget"]:
+        if self.profile == "constant" or not [o for o in self.env.objects if o.cls == "VfWidget"] or self.no_methods:
             return None
         rng = self.rng
         o = self.obj_expr(depth + 1)
@@ -791,8 +794,35 @@ class VoidGen(Gen):
             args.append(e)
         return N("log", VOID, tuple(args), v=lv)
 
+    def value_call(self, depth=2):
+        """One call of a value-returning method: (node, type)."""
+        rng = self.rng
+        o = self.obj_expr(depth)
+        name, rt, ats = rng.choice((("twice", INT, (INT,)), ("sum", INT, (INT, INT)), ("greet", STR, (STR,)), ("test", BOOL, (INT, INT)),
+                                    ("half", DOUBLE, (DOUBLE,))))
+        return N("call", rt, (o,) + tuple(self.expr(t, depth) for t in ats), v=name), rt
+
+    def call_stmt(self):
+        """Statement whose only side effect is one value-returning method call: in a declaration, an assignment or bare."""
+        rng = self.rng
+        call, rt = self.value_call()
+        r = rng.random()
+        if r < 0.5:
+            name = self.fresh()
+            const = rng.random() < 0.4
+            self.locals[-1][name] = (rt, const)
+            self.feat("effect:let-call")
+            return N("let", VOID, (call,), v=(name, rt, const, rng.random() < 0.3))
+        cands = self.lookup_locals(rt, assignable=True)
+        if cands and r < 0.75:
+            self.feat("effect:assign-call")
+            return N("assign", VOID, (call,), v=rng.choice(cands))
+        self.feat("effect:bare-call")
+        return N("exprstmt", rt, (call,))
+
     def body(self, params=()):
         """-> list of statements.  params: [(name, type)] bound by the caller."""
+        self.no_methods = True   # calls appear at statement level only, one per statement: their order is observable
         self.locals = [dict((n, (t, False)) for n, t in params)]
         self.hidden = set()
         self.nlocal = 0
@@ -804,8 +834,10 @@ class VoidGen(Gen):
         n = rng.choice((1, 2, 2, 3, 4)) if depth < 2 else rng.choice((0, 1, 2))
         for i in range(n):
             r = rng.random()
-            if r < 0.4 or depth >= 3:
+            if r < 0.32 or depth >= 3:
                 out.append(self.effect())
+            elif r < 0.42:
+                out.append(self.call_stmt())
             elif r < 0.55:
                 out += self.prelude(depth + 1)
             elif r < 0.72:
@@ -840,7 +872,12 @@ class VoidGen(Gen):
                 self.locals.pop()
                 self.feat("void:block")
                 out.append(N("block", VOID, (inner,)))
-        if rng.random() < 0.25:
+        if rng.random() < 0.12:
+            # ... or in a declaration whose initialiser has a side effect
+            out.append(self.call_stmt())
+            if out[-1].k == "let":
+                self.feat("void:ends-in-declaration-with-call")
+        elif rng.random() < 0.25:
             # a block that ends in a declaration (its last block has statements but no completion value)
             lt = rng.choice((INT, BOOL, STR))
             init = N("tern", lt, (self.expr(BOOL, 2), self.expr(lt, 3), self.expr(lt, 3))) if rng.random() < 0.6 else self.expr(lt, 2)
@@ -1120,6 +1157,7 @@ class Interp:
         self.scopes = [{}]
         self.reads = []          # (obj id, prop) in evaluation order
         self.effects = []        # side effects in execution order
+        self.record_calls = False
         self.on_effect = on_effect
 
     def get_local(self, n):
@@ -1244,6 +1282,8 @@ class Interp:
             o = self.ev(n.a[0])
             if o is None:
                 raise Undefined("null dereference")
+            if self.record_calls:
+                self.effects.append(("call", o, n.v, [(x.t, a) for x, a in zip(n.a[1:], args)]))
             if n.v == "other":
                 return self.state[o]["peer2"]
             return vf_method(n.v, args)
@@ -1417,6 +1457,7 @@ def run_void(stmts, state, owner=None, params=None):
     import copy
     st = copy.deepcopy(state)
     it = Interp(st, owner)
+    it.record_calls = True
     it.completion = _UNSET
     if params:
         it.scopes[0].update(params)
